@@ -27,6 +27,11 @@ pub fn run_code_block(registers: &mut Registers, mem: *mut MemoryAreas) -> u8 {
           // the fixed bank on into the switchable bank
           break;
         }
+        if next_op_is_undefined(registers, mem) {
+          // same block boundary as the translator: an undefined opcode is
+          // only reported once execution arrives at it
+          break;
+        }
       },
       None => break,
     }
@@ -49,6 +54,17 @@ pub fn run_code_block(registers: &mut Registers, mem: *mut MemoryAreas) -> u8 {
   }
 
   status
+}
+
+fn next_op_is_undefined(registers: &Registers, mem: *mut MemoryAreas) -> bool {
+  let code_slice = get_executable_memory_slice(registers.ip as usize, mem);
+  if code_slice.len() < 1 {
+    return false;
+  }
+  match decode(code_slice) {
+    (Op::Invalid(_), _, _) => true,
+    _ => false,
+  }
 }
 
 pub fn run_next_op(registers: &mut Registers, mem: *mut MemoryAreas) -> Option<(u8, bool)> {
